@@ -357,6 +357,23 @@ theorem merge_receiver_windings (s : Ent) (below : List Ent) (ht : (merge s belo
       = C01.expected (merge s below).s.seg (C01.sums (pairs (merge s below).below)) :=
   merge_fields_expected s below ht hp
 
+/-- 51f64dd: after `mergeOverlapping` the receiver is open only if it was open and every absorbed
+segment was open — an open segment that lies on a closed segment disappears in it, not the other
+way round (an equivalence whenever segments were absorbed); clipping / vertical / increasing of the
+receiver never change -/
+theorem merge_open_on_closed (s : Ent) (below : List Ent) :
+    ((merge s below).s.seg.open_ = true → s.seg.open_ = true) ∧
+    ((merge s below).touched = true →
+      ((merge s below).s.seg.open_ = true ↔
+        s.seg.open_ = true ∧ ∀ e ∈ (absorb s below).2.1, e.seg.open_ = true)) ∧
+    (merge s below).s.seg.clipping = s.seg.clipping ∧ (merge s below).s.seg.vertical = s.seg.vertical ∧
+    (merge s below).s.seg.increasing = s.seg.increasing :=
+  merge_open s below
+
+/-- non-vacuity: an open receiver on a closed coincident segment comes out closed -/
+example : (merge ⟨⟨false, false, true, true⟩, 0, false, ⟨0, 0, 0, 0⟩⟩
+    [⟨⟨false, false, true, false⟩, 0, false, ⟨0, 0, 1, 0⟩⟩]).s.seg.open_ = false := by decide
+
 end Merge
 
 namespace Split
